@@ -6,8 +6,10 @@ For the property under check:
     must report a VIOLATION naming the recorded rule instance;
   * behaviour-preserving variants of the current tree (ast.unparse round trip of every module, black re-formatting
     at two line lengths, the archived benign patches) must NOT raise a VIOLATION (exit 0 required);
-  * a consistent renaming of function-local variables must not raise a VIOLATION either (exit 0 or 2 accepted:
-    an anchor that cannot be found is analysis-broken, never a false alarm).
+  * a consistent renaming of function-local variables, and seven mechanical re-spellings of the whole package (sa/variants.py: a debug
+    log line in every function, if/else swapped under a negated test, annotated locals, returned expressions bound to a temporary,
+    comparisons spelled with `not`, else after a terminating if-body, f-strings as concatenations) must not raise a VIOLATION either
+    (exit 0 or 2 accepted: an anchor that cannot be found is analysis-broken, never a false alarm).
 A failure is an ANALYSIS-ERROR of the checker, not a violation of the property.  Variants whose patch does not
 apply to the (possibly edited) current tree are recorded as skipped.  Scratch copies live under tempfile.mkdtemp()
 and are removed immediately.
@@ -202,6 +204,9 @@ def run_selftest(prop: str) -> Dict[str, Any]:
     for b in sorted((SEEDED / "benign").glob("*/patch.diff")):
         jobs.append(("benign", "benign:" + b.parent.name, v_patch(b), None))
     jobs.append(("rename", "function-local variables renamed", v_rename_locals, None))
+    from sa.variants import VARIANTS
+    for vname, gen in VARIANTS.items():
+        jobs.append(("rename", "re-spelling: " + vname, gen, None))
     with ThreadPoolExecutor(min(16, len(jobs))) as ex:
         res = list(ex.map(lambda j: _one(prop, *j), jobs))
     bad = [r for r in res if r.get("ok") is False]
